@@ -127,10 +127,11 @@ Definition s_read1 (crlf : bool) (c : bytes) (pos : Z) (f : rfmt) : option (val 
   let r := rest c pos in
   match f with
   | FCount n =>
-    if n <? 0 then None else
+    (* up to n bytes; a negative count is no limit (C Lua converts it to size_t) *)
     match r with
     | [] => Some (VNil, pos)
-    | _ => let s := firstn (Z.to_nat n) r in Some (VStr s, pos + len s)
+    | _ => let k := if n <? 0 then len r else Z.min n (len r) in
+           let s := firstn (Z.to_nat k) r in Some (VStr s, pos + len s)
     end
   | FLine =>
     match line_of crlf r with
